@@ -27,7 +27,7 @@ CHECKS = {
    text="Reference model of the TOML output contract run in lock-step with the real translator over a logging writer: per call verdict, bytes written by that call, validity and value of the single accepted document (toml_edit), and the 'nothing or exactly one document' invariant after every step. Unit 'cli' runs the same histories as the input files of one `xt -t toml` invocation of the real binaries.",
    note="For binary/ext/f32/non-string non-null keys the statement does not fix accept-or-refuse; the check requires only nothing-and-Err or one valid document. K5 and K8 are known findings.", ref="4 C08"),
  "C09": dict(level="exploration", technique="differential property-based testing of detected vs explicit runs using the detection hook, plus bounded-exhaustive and random model-based testing of the rewindable input handle",
-   text="Part 1 compares, for generated and enumerated byte strings and both supply modes, the complete outcome (verdict, bytes, error text) of a detected run with the run that names the hook-reported format, and requires 'unable to detect input format' otherwise. Part 2 runs every program of handle operations up to a bound (all small data sizes, all chunkings, both endings) against the reference model 'the byte string itself'. Unit 'sizes' feeds TOML documents just below the 2 MiB reader cut-off.",
+   text="Part 1 compares, for generated and enumerated byte strings and both supply modes, the complete outcome (verdict, bytes, error text) of a detected run with the run that names the hook-reported format, and requires 'unable to detect input format' otherwise. Part 2 runs every program of handle operations up to a bound (all small data sizes, all chunkings, both endings) against the reference model 'the byte string itself'. Unit 'sizes' feeds TOML documents just below the 2 MiB reader cut-off. Unit 'sequence' translates pairs of generated inputs through ONE Translator without naming a format: the second input must come out exactly as it does alone (detection has no memory).",
    note="Observes detection through the verif hook. Known findings K4 and K6 license two precisely shaped differences between failing detected and explicit reader runs.", ref="4 C09"),
  "C10": dict(level="exploration", technique="property-based testing (proptest): xt output fed back without a format vs with the format named; TOML precondition decided by independent harness predicates",
    text="Generated collection-rooted documents are translated to each output format; the output must be detected as that format (hook) and translate identically with and without naming it, from a slice and from a scheduled reader. The TOML precondition is evaluated without xt and the fraction satisfying it is reported.",
